@@ -8,6 +8,8 @@ never delivers a reply to a stream other than the one named by its routing tag (
 `c02_replies_none_lost_each_to_its_requestor`), so only same-stream confusion has to be excluded here.
 -/
 import SeliumModel.Client.Requestor
+import SeliumModel.Client.Replier
+import SeliumModel.Lemmas.Digits
 
 namespace Selium.Client
 open Selium
@@ -215,6 +217,103 @@ theorem c04_ids_distinct (n : Nat) (hn : n ≤ U32) :
         rw [Nat.mod_eq_of_lt (by omega : m < U32)]
   exact ⟨key.1, by rw [key.1]; exact List.nodup_range⟩
 
+/-! ### the honest replier and the whole exchange
+
+`Client/Replier.lean` models `Replier::listen`. With the library replier on the other side the exchange is:
+requestor writes `{"req_id": id}` → server overwrites / adds `cid` (`tagRequest`) → replier answers with the
+request's own header map → server routes on `cid` and strips it (`routerSend`) → the requestor's reader parses
+`req_id` (`replyOfFrame`) and completes the call (`Rq.arrive`). The theorems below close that loop. -/
+open Selium.Sink Selium.Route
+
+/-- `listen()` answers a prefix of what arrives, one reply per request, in order, each with the headers of the
+    request it answers and the processed payload; if it returned `Ok(())` it answered everything. -/
+theorem c04_replier_answers_in_order_with_request_headers {β} (process : β → Res β) (sendOk : Nat → Bool)
+    (n : Nat) (items : List (RxItem β)) :
+    ∃ k, k ≤ items.length ∧
+      (listen process sendOk n items).1 = (items.take k).filterMap (answer process) ∧
+      (∀ it ∈ items.take k, ∃ h p r, it = .msg h p ∧ process p = .ok r) ∧
+      ((listen process sendOk n items).2 = .ended → k = items.length) := by
+  induction items generalizing n with
+  | nil => exact ⟨0, by simp [listen]⟩
+  | cons it rest ih =>
+    cases it with
+    | msg h p =>
+      cases hp : process p with
+      | ok r =>
+        by_cases hs : sendOk n = true
+        · obtain ⟨k, hk, h1, h2, h3⟩ := ih (n + 1)
+          refine ⟨k + 1, by simp; omega, ?_, ?_, ?_⟩
+          · simp [listen, hp, hs, h1, answer]
+          · intro it hit
+            simp only [List.take_succ_cons, List.mem_cons] at hit
+            rcases hit with rfl | hit
+            · exact ⟨h, p, r, rfl, hp⟩
+            · exact h2 it hit
+          · intro he
+            simp only [listen, hp, hs, if_true] at he
+            simp [h3 he]
+        · exact ⟨0, by simp, by simp [listen, hp, hs], by simp, by simp [listen, hp, hs]⟩
+      | err e => exact ⟨0, by simp, by simp [listen, hp], by simp, by simp [listen, hp]⟩
+      | panic e => exact ⟨0, by simp, by simp [listen, hp], by simp, by simp [listen, hp]⟩
+    | error c => exact ⟨0, by simp, by simp [listen], by simp, by simp [listen]⟩
+    | other => exact ⟨0, by simp, by simp [listen], by simp, by simp [listen]⟩
+    | ioErr => exact ⟨0, by simp, by simp [listen], by simp, by simp [listen]⟩
+
+/-- With requests only, a handler / codec pipeline that succeeds on each of them and a transport that accepts every
+    reply, every request is answered, in order, with its own headers. -/
+theorem c04_replier_answers_every_request {β} (process : β → Res β) (f : β → β) (hf : ∀ p, process p = .ok (f p))
+    (n : Nat) (reqs : List (Option Hdr × β)) :
+    listen process (fun _ => true) n (reqs.map fun q => .msg q.1 q.2) = (reqs.map fun q => (q.1, f q.2), .ended) := by
+  induction reqs generalizing n with
+  | nil => rfl
+  | cons q qs ih => simp [listen, hf, ih (n + 1)]
+
+/-- The routing tag survives the trip: whatever headers a requestor put on its request (a forged `cid` included),
+    the reply that echoes the tagged request's headers is handed to exactly that requestor's sink, with the tag
+    removed and the requestor's other headers and the replier's payload intact. -/
+theorem c04_echoed_reply_reaches_its_requestor (cid : Nat) (hcid : cid < 18446744073709551616) (h : Option Hdr)
+    (p r : Nat) (es : List (Child RFrame)) (c : Child RFrame) (hc : es.find? (·.id = cid) = some c)
+    (hs : c.sendOk = true) :
+    ∃ hd, tagRequest cid h p = .msg (some hd) p ∧
+      (routerSend (.msg (some hd) r) es).1 = .delivered cid (stripCid hd r) ∧
+      hd.remove CID = (h.getD []).remove CID := by
+  refine ⟨(h.getD []).set CID (toString cid), rfl, ?_, ?_⟩
+  · have hget : ((h.getD []).set CID (toString cid)).get CID = some (toString cid) := by
+      simp [Hdr.set, Hdr.get]
+    unfold routerSend
+    simp only [hget, parseUsize_toString cid hcid, hc, hs, if_true]
+  · simp [Hdr.set, Hdr.remove, List.filter_filter]
+
+/-- The request id survives the trip: the reply to request `id` is recognised by the reader task as the reply to
+    `id` (for every id the counter can produce). -/
+theorem c04_request_id_roundtrip (id : Nat) (hid : id < U32) (cidv : String) (payload : Bytes) :
+    replyOfFrame (some ((requestHeaders id).remove CID)) payload = { reqId := some id, payload := payload } ∧
+    replyOfFrame (some (((requestHeaders id).set CID cidv).remove CID)) payload = { reqId := some id, payload := payload } := by
+  have hne : (REQ_ID ≠ CID) := by decide
+  have h1 : (requestHeaders id).remove CID = requestHeaders id := by
+    simp [requestHeaders, Hdr.remove, hne]
+  have h2 : ((requestHeaders id).set CID cidv).remove CID = requestHeaders id := by
+    simp [requestHeaders, Hdr.set, Hdr.remove, hne]
+  have h3 : replyOfFrame (some (requestHeaders id)) payload = { reqId := some id, payload := payload } := by
+    simp [replyOfFrame, requestHeaders, Hdr.get, parseU32, parseBelow_repr U32 id hid]
+  rw [h1, h2]; exact ⟨h3, h3⟩
+
+/-- … and completes exactly the call that made the request: a call followed by the arrival of the echoed reply
+    ends with that call holding the reply's payload. -/
+theorem c04_honest_exchange_completes (s : Rq) (hid : s.nextId < U32) (payload : Bytes) :
+    (s.call.arrive (replyOfFrame (some (requestHeaders s.nextId)) payload)).calls[s.calls.length]? =
+      some { id := s.nextId, state := .done payload } := by
+  have h3 : replyOfFrame (some (requestHeaders s.nextId)) payload = { reqId := some s.nextId, payload := payload } := by
+    simp [replyOfFrame, requestHeaders, Hdr.get, parseU32, parseBelow_repr U32 s.nextId hid]
+  rw [h3]
+  simp [Rq.arrive, Rq.call, setState_getElem?]
+
+/-- hypotheses are satisfiable: requestor 3 sends request 7 with a forged tag; the echo comes back to sink 3 -/
+example :
+    (routerSend (.msg (some (Hdr.set [(CID, "9"), (REQ_ID, "7")] CID (toString 3))) 42)
+      [{ id := 1 }, { id := 3 }]).1 = .delivered 3 (.msg (some [(REQ_ID, "7")]) 42) := by
+  simp [routerSend, Hdr.set, Hdr.get, Hdr.remove, stripCid, parseUsize_repr, Child.sendOk, CID, REQ_ID]
+
 end Selium.Client
 
 #print axioms Selium.Client.c04_own_reply
@@ -229,3 +328,8 @@ end Selium.Client
 #print axioms Selium.Client.timeout_inv
 #print axioms Selium.Client.arrive_inv
 #print axioms Selium.Client.run_inv
+#print axioms Selium.Client.c04_replier_answers_in_order_with_request_headers
+#print axioms Selium.Client.c04_replier_answers_every_request
+#print axioms Selium.Client.c04_echoed_reply_reaches_its_requestor
+#print axioms Selium.Client.c04_request_id_roundtrip
+#print axioms Selium.Client.c04_honest_exchange_completes
